@@ -65,6 +65,11 @@ pub struct Step {
     /// the server never answers this request (only with an own timeout): the operation times out
     #[serde(default)]
     silent: bool,
+    /// this operation (which has no modifiers of its own) runs on a CLONE of the handle, taken after the
+    /// modifiers of the NEXT step have been set on the handle: the clone must not carry them, and they must
+    /// still be there for the next step's operation
+    #[serde(default)]
+    on_clone: bool,
 }
 
 #[derive(Clone, Debug, Serialize, Deserialize)]
@@ -144,10 +149,13 @@ fn call() -> BoxedStrategy<Call> {
 }
 
 fn strat(_: &Ctx) -> BoxedStrategy<Case> {
-    let step = (0u8..2, mods(), call(), proptest::bool::weighted(0.3), proptest::bool::weighted(0.5)).prop_map(|(handle, mods, call, slow, silent)| {
+    let step = (0u8..2, mods(), call(), proptest::bool::weighted(0.3), proptest::bool::weighted(0.5), proptest::bool::weighted(0.15)).prop_map(|(handle, mods, call, slow, silent, on_clone)| {
+        if on_clone {
+            return Step { handle, mods: Mods::default(), call, slow: false, silent: false, on_clone: true };
+        }
         let slow = slow && mods.timeout_ms.is_none();
         let silent = silent && mods.timeout_ms.is_some() && !matches!(call, Call::Abandon { .. } | Call::Unbind);
-        Step { handle, mods, call, slow, silent }
+        Step { handle, mods, call, slow, silent, on_clone: false }
     });
     (vec(step, 1..=10), any::<bool>(), any::<u64>()).prop_map(|(steps, unbind_last, sched)| Case { steps, unbind_last, sched }).boxed()
 }
@@ -216,17 +224,21 @@ struct StepObs {
     entries_seen: usize,
 }
 
-async fn run_step(ldap: &mut Ldap, step: &Step) -> StepObs {
-    let mut o = StepObs::default();
-    if let Some(c) = &step.mods.controls {
+fn apply_mods(ldap: &mut Ldap, mods: &Mods) {
+    if let Some(c) = &mods.controls {
         ldap.with_controls(to_raw(c));
     }
-    if let Some(t) = step.mods.timeout_ms {
+    if let Some(t) = mods.timeout_ms {
         ldap.with_timeout(Duration::from_millis(t as u64));
     }
-    if let Some(so) = &step.mods.search_opts {
+    if let Some(so) = &mods.search_opts {
         ldap.with_search_options(sopts(so));
     }
+}
+
+async fn run_step(ldap: &mut Ldap, step: &Step) -> StepObs {
+    let mut o = StepObs::default();
+    apply_mods(ldap, &step.mods);
     let out: Result<(), ldap3::LdapError> = match &step.call {
         Call::SimpleBind { dn, pw } => ldap.simple_bind(dn, pw).await.map(|_| ()),
         Call::SaslExternal => ldap.sasl_external_bind().await.map(|_| ()),
@@ -294,7 +306,7 @@ async fn run_step(ldap: &mut Ldap, step: &Step) -> StepObs {
 pub fn check(case: &Case, obs: &mut Obs) -> Result<(), Fail> {
     let mut steps = case.steps.clone();
     if case.unbind_last {
-        steps.push(Step { handle: 0, mods: Mods::default(), call: Call::Unbind, slow: false, silent: false });
+        steps.push(Step { handle: 0, mods: Mods::default(), call: Call::Unbind, slow: false, silent: false, on_clone: false });
     }
     let on_wire: Vec<(usize, Req)> = steps.iter().enumerate().filter_map(|(i, s)| expected(s).map(|r| (i, r))).collect();
     let slow: Vec<bool> = on_wire.iter().map(|(i, _)| steps[*i].slow).collect();
@@ -340,13 +352,23 @@ pub fn check(case: &Case, obs: &mut Obs) -> Result<(), Fail> {
         });
         let mut handles = [conn.ldap.clone(), conn.ldap.clone()];
         let mut obs = Vec::new();
-        for s in &st {
+        for (si, s) in st.iter().enumerate() {
             let h = &mut handles[s.handle as usize % 2];
             let mut l = h.clone();
             // keep modifier state of the generated handle: clones start clean, so operate on the handle itself
             std::mem::swap(&mut l, h);
             let step = s.clone();
+            // modifiers the NEXT step will set on this handle (applied early when this step runs on a clone)
+            let next_mods = st.get(si + 1).filter(|n| n.handle % 2 == s.handle % 2 && s.on_clone).map(|n| n.mods.clone());
             let jh = tokio::spawn(async move {
+                if step.on_clone {
+                    if let Some(m) = &next_mods {
+                        apply_mods(&mut l, m);
+                    }
+                    let mut c = l.clone();
+                    let o = run_step(&mut c, &step).await;
+                    return (o, l);
+                }
                 let o = run_step(&mut l, &step).await;
                 (o, l)
             });
@@ -498,7 +520,7 @@ pub fn property() -> Property {
     Property {
         id: "C02",
         level: "exploration",
-        rule: "generated histories of 1-10 operations on 2 handles over the whole Ldap surface (simple bind, SASL EXTERNAL, search/streaming_search/streaming_search_with, add, compare, delete, modify with all four Mod kinds, modifyDN +-newSuperior, extended with arbitrary OID/value, abandon of any id, unbind last), arguments: arbitrary Unicode DNs and strings (empty, NUL, >127 and >65535 bytes), byte values incl. invalid UTF-8, attribute lists of 0-300 elements, value sets of 0-50, limits over 0..2^31-1, valid filters from the C08 generator; before each op independently with_controls (0-3 raw controls), with_timeout, with_search_options - also in front of non-search ops and ops that fail locally (empty Add value set, bad filter); the server answers success (some answers delayed one virtual hour to expose a leaked timeout; some timed operations are never answered so that they time out and the following operation shows whether their modifiers were consumed). Oracle: the client->server byte log, framed and decoded by the harness's strict RFC 4511 decoder, is exactly one message per issued op, field-for-field equal to the request model built from the arguments (SET OF as multiset), id in 1..2^31-1 and equal to last_id()/stream handle's last_id(), controls exactly those set immediately before that op. Non-trivial: an op with >=1 control, a list argument with >=2 elements, a modifier before a different kind of op or before a locally failing op. Distinct = debug rendering of the history.",
+        rule: "generated histories of 1-10 operations on 2 handles over the whole Ldap surface (simple bind, SASL EXTERNAL, search/streaming_search/streaming_search_with, add, compare, delete, modify with all four Mod kinds, modifyDN +-newSuperior, extended with arbitrary OID/value, abandon of any id, unbind last), arguments: arbitrary Unicode DNs and strings (empty, NUL, >127 and >65535 bytes), byte values incl. invalid UTF-8, attribute lists of 0-300 elements, value sets of 0-50, limits over 0..2^31-1, valid filters from the C08 generator; before each op independently with_controls (0-3 raw controls), with_timeout, with_search_options - also in front of non-search ops and ops that fail locally (empty Add value set, bad filter); 15% of the operations run on a CLONE taken after the next operation's modifiers were already set on the handle (a clone must not carry pending modifiers, and they must still be there for the handle's own next operation); the server answers success (some answers delayed one virtual hour to expose a leaked timeout; some timed operations are never answered so that they time out and the following operation shows whether their modifiers were consumed). Oracle: the client->server byte log, framed and decoded by the harness's strict RFC 4511 decoder, is exactly one message per issued op, field-for-field equal to the request model built from the arguments (SET OF as multiset), id in 1..2^31-1 and equal to last_id()/stream handle's last_id(), controls exactly those set immediately before that op. Non-trivial: an op with >=1 control, a list argument with >=2 elements, a modifier before a different kind of op or before a locally failing op. Distinct = debug rendering of the history.",
         assumptions: &["harness strict request decoder (src/model.rs)", "limits and ids stay in the RFC's 0..maxInt range (negative integers are C07's business)", "search() does not expose its message id; id equality is checked for every other call"],
         lanes: vec![Box::new(PLane { name: "histories", cases: |t| t.pick(2_000, 25_000), strat, check })],
         workers: (8, 16),
